@@ -439,7 +439,9 @@ impl BitMachine {
 
             Ok(value)
         } else {
-            Ok(Value::unit())
+            // A zero-width target type need not be the unit type (e.g. `1 * 1`); return
+            // its unique value rather than a value of type `1`.
+            Ok(Value::zero(&program.arrow().target))
         }
     }
 
